@@ -145,7 +145,11 @@ def hout(rng, code, fail_p=0.2):
     if code == GET_CONFIG:
         s += ",b=%s" % rng.choice(["-", "00", "0102030405060708", "11" * 0x100])
     if code == GET_SHMEM_CONFIG:
-        s += ",b=%s" % rng.choice(["-", "0010000000000000", "0010000000000000" + "0000100000000000"])
+        # region sizes by id: none, one, two, all 256 ids in use, only the last id (255) in use, 255 ids, one id too many
+        w = lambda i: u64(0x1000 * (i + 1))
+        s += ",b=%s" % rng.choice(["-", "0010000000000000", "0010000000000000" + "0000100000000000",
+                                   "".join(w(i) for i in range(256)), "00" * 2040 + w(255), "".join(w(i) for i in range(255)),
+                                   "00" * 2032 + w(254) + w(255) + w(256)])
     if code == SET_DEVICE_STATE_FD:
         s += ",f=%d" % rng.choice([0, 1])
     return s
